@@ -10,6 +10,58 @@ from . import common as K
 from . import iorules
 
 
+def counter_form(ctx, idx, d, fi, cfg, nexts, con):
+    """the row loop keeps its own line counter: returns the row-subscript CFG nodes after recording the obligations, or None"""
+    heads = []
+    for h in cfg.find("iter"):
+        if h.meta.get("comp") or not isinstance(h.meta["target"], ast.Name):
+            continue
+        it = K.expand(fi, h.meta["iter"])
+        q = idx.qualname(fi.module, it.func, fi) if isinstance(it, ast.Call) and isinstance(it.func, (ast.Name, ast.Attribute)) else None
+        if q == "csv.reader" or (isinstance(h.meta["iter"], ast.Name) and any(isinstance(n_, ast.Assign) and any(isinstance(t_, ast.Name) and t_.id == h.meta["iter"].id for t_ in n_.targets) and isinstance(n_.value, ast.Call) and (idx.qualname(fi.module, n_.value.func, fi) or "") == "csv.reader" for n_ in own_nodes(fi.node))):
+            heads.append(h)
+    if not heads:
+        return None
+    h = heads[0]
+    rowvar = h.meta["target"].id
+    firsts = [m for m, l in h.succ if l == "loop"]
+    body = cfg.reachable(firsts, avoid={h})
+    augs = [n for n in body if n.kind == "aug" and isinstance(n.ast.target, ast.Name) and isinstance(n.ast.op, ast.Add) and isinstance(n.ast.value, ast.Constant) and n.ast.value.value == 1]
+    rz = [n for n in body if n.kind == "raise" and (n.meta.get("qual") or "").endswith("InvalidDataFile")]
+    if not augs or not rz:
+        return None
+    a = augs[0]
+    var = a.ast.target.id
+    inits = [n_.value for n_ in own_nodes(fi.node) if isinstance(n_, ast.Assign) and any(isinstance(t_, ast.Name) and t_.id == var for t_ in n_.targets)]
+    if len(inits) != 1 or not isinstance(inits[0], ast.Constant) or not isinstance(inits[0].value, int):
+        return None
+    c0 = inits[0].value
+    consumed = len([n for n in nexts if cfg.dominates(n, h)])
+    every = all(cfg.must_pass_through(b, h, {a}) for b in firsts)
+    before = all(cfg.dominates(a, r_) for r_ in rz)
+    # the expression reported: the counter itself or counter +/- constant, inside the raise
+    k = None
+    for r_ in rz:
+        for x in ast.walk(r_.ast):
+            if isinstance(x, ast.BinOp) and isinstance(x.op, (ast.Add, ast.Sub)) and isinstance(x.left, ast.Name) and x.left.id == var and isinstance(x.right, ast.Constant):
+                k = x.right.value if isinstance(x.op, ast.Add) else -x.right.value
+        if k is None and any(isinstance(x, ast.Name) and x.id == var for x in ast.walk(r_.ast)):
+            k = 0
+    if k is None:
+        ctx.violate("C17.c", con, d.module.rel, rz[0].line, "the invalid-value error no longer reports a line derived from the row counter")
+    elif not every:
+        ctx.violate("C17.c", con, d.module.rel, a.line, "the line counter `%s` is not advanced for every row (a blank row skips it): the reported line is too small by the number of blank lines before it" % var)
+    else:
+        want = consumed - c0 + (0 if before else 1)
+        ctx.ob("C17.c", con, d.module.rel, rz[0].line, k == want, "line = %s %+d with %s starting at %d, advanced once per row (%d header row(s) consumed)" % (var, k, var, c0, consumed) if k == want else
+               "the reported line is %s %+d but the file line of that row is %s %+d (%s starts at %d, %d header row consumed)" % (var, k, var, want, var, c0, consumed))
+    subs = [n for n in cfg.find("sub") if isinstance(n.ast.value, ast.Name) and n.ast.value.id == rowvar]
+    guards = [t for t in cfg.find("test") if isinstance(K.expand(fi, t.ast), ast.Name) and K.expand(fi, t.ast).id == rowvar or (isinstance(t.ast, ast.UnaryOp) and isinstance(t.ast.operand, ast.Name) and t.ast.operand.id == rowvar)]
+    ok = bool(subs) and bool(guards) and all(any(cfg.dominates(g, s_) for g in guards) for s_ in subs)
+    ctx.ob("C17.c", "%s.execute::blank-rows" % d.key, d.module.rel, subs[0].line if subs else h.line, ok, "blank rows are skipped before the row is indexed" if ok else "a blank line reaches `%s[...]` and fails with IndexError instead of being skipped" % rowvar)
+    return subs
+
+
 def run(ctx, idx):
     ctx.assume("csv.reader yields one list per physical row for unquoted numeric data; blank lines yield empty lists")
     ctx.rule("C17.a", "Parameters mean what they clean to: every kwargs.get default and every literal compared with a cleaned parameter lies in the cleaned domain of its declared type (a DataType cleans to a type object).")
@@ -29,7 +81,7 @@ def run(ctx, idx):
     # mask from MissingVal on the returned array (shares C03.e's facts)
     miss = [nm for nm, p in d.inputs.items() if p.name == "NumberParameter" and "miss" in nm.lower()]
     good = [(line, t, v) for line, t, v, node, fk in r.maskstores if isinstance(v, Arr) and v.cmp is not None and any(("kw:" + m) in str(v.cmp[2]) for m in miss)]
-    rets = [v for _, v, _ in r.returns if isinstance(v, Arr)]
+    rets = R.returns_with_parameter(d, r, miss)
     ok = bool(good) and all(any(t.alias & v.alias for _, t, _ in good) for v in rets)
     eq = all(v.cmp[1] == "Eq" for _, _, v in good) if good else False
     ops = sorted({v.cmp[1] for _, _, v in good})
@@ -45,53 +97,59 @@ def run(ctx, idx):
     heads = [h for h in cfg.find("iter") if not h.meta.get("comp") and isinstance(h.meta["iter"], ast.Call) and isinstance(h.meta["iter"].func, ast.Name) and h.meta["iter"].func.id == "enumerate"]
     con = "%s.execute::error-line" % d.key
     if not heads:
-        raise AnalysisError("C17.c: the enumerate loop over the rows was not found")
-    h = heads[0]
-    en = h.meta["iter"]
-    start = 0
-    if len(en.args) > 1 and isinstance(en.args[1], ast.Constant):
-        start = en.args[1].value
-    for k in en.keywords:
-        if k.arg == "start" and isinstance(k.value, ast.Constant):
-            start = k.value.value
-    consumed = len([n for n in nexts if cfg.dominates(n, h)])
-    ivar = h.meta["target"].elts[0].id if isinstance(h.meta["target"], ast.Tuple) else None
-    rowvar = h.meta["target"].elts[1].id if isinstance(h.meta["target"], ast.Tuple) else None
-    exprs = []
-    for n in own_nodes(fi.node):
-        if isinstance(n, ast.BinOp) and isinstance(n.op, (ast.Add, ast.Sub)) and isinstance(n.left, ast.Name) and n.left.id == ivar and isinstance(n.right, ast.Constant):
-            exprs.append((n, n.right.value if isinstance(n.op, ast.Add) else -n.right.value))
-        elif isinstance(n, ast.Name) and n.id == ivar and isinstance(n.ctx, ast.Load):
-            pass
-    want = consumed + 1 - start
-    en_arg = en.args[0] if en.args else None
-    filtered_src = None
-    if isinstance(en_arg, (ast.GeneratorExp, ast.ListComp)) and en_arg.generators[0].ifs:
-        filtered_src = en_arg
-    if isinstance(en_arg, ast.Name):
+        # an explicit line counter instead of enumerate(): `n = c0` before the loop over the reader, `n += 1` once per row
+        done = counter_form(ctx, idx, d, fi, cfg, nexts, con)
+        if done is None:
+            raise AnalysisError("C17.c: neither an enumerate loop nor a line-counter loop over the rows was found")
+        heads = None
+    subs = done if heads is None else []
+    if heads is not None:
+        h = heads[0]
+        en = h.meta["iter"]
+        start = 0
+        if len(en.args) > 1 and isinstance(en.args[1], ast.Constant):
+            start = en.args[1].value
+        for k in en.keywords:
+            if k.arg == "start" and isinstance(k.value, ast.Constant):
+                start = k.value.value
+        consumed = len([n for n in nexts if cfg.dominates(n, h)])
+        ivar = h.meta["target"].elts[0].id if isinstance(h.meta["target"], ast.Tuple) else None
+        rowvar = h.meta["target"].elts[1].id if isinstance(h.meta["target"], ast.Tuple) else None
+        exprs = []
         for n in own_nodes(fi.node):
-            if isinstance(n, ast.Assign) and any(isinstance(t, ast.Name) and t.id == en_arg.id for t in n.targets):
-                if isinstance(n.value, (ast.GeneratorExp, ast.ListComp)) and n.value.generators[0].ifs:
-                    filtered_src = n.value
-                elif isinstance(n.value, ast.Call) and isinstance(n.value.func, ast.Name) and n.value.func.id == "filter":
-                    filtered_src = n.value
-    bare = [n for n in own_nodes(fi.node) if isinstance(n, ast.Call) and isinstance(n.func, ast.Attribute) and n.func.attr == "format" and any(isinstance(a, ast.Name) and a.id == ivar for a in n.args)]
-    if bare:
-        exprs.append((bare[0], 0))
-    if filtered_src is not None and exprs:
-        ctx.violate("C17.c", con, d.module.rel, h.line, "rows are numbered after blank rows have been filtered out (`%s`): the reported line is too small by the number of blank lines before it" % K.src(filtered_src)[:60])
-    elif not exprs:
-        ctx.violate("C17.c", con, d.module.rel, h.line, "the invalid-value error no longer reports a line derived from the row index")
-    else:
-        node, k = exprs[0]
-        ctx.ob("C17.c", con, d.module.rel, node.lineno, k == want, "line = %s + %d (%d header row(s) consumed, enumerate starts at %d)" % (ivar, k, consumed, start) if k == want else
-               "the reported line is %s %+d but the file line of row %s is %s %+d (%d header row consumed, enumerate starts at %d)" % (ivar, k, ivar, ivar, want, consumed, start))
-    subs = [n for n in cfg.find("sub") if isinstance(n.ast.value, ast.Name) and n.ast.value.id == rowvar]
-    guards = [t for t in cfg.find("test") if isinstance(t.ast, ast.Name) and t.ast.id == rowvar]
-    ok = bool(subs) and bool(guards) and all(any(cfg.dominates(g, s) and s not in cfg.reachable([m for m, l in g.succ if l == "false"], avoid={g, h}) for g in guards) for s in subs)
-    if filtered_src is not None and bool(subs):
-        ok = True  # blank rows are removed by the filtering iterable itself
-    ctx.ob("C17.c", "%s.execute::blank-rows" % d.key, d.module.rel, subs[0].line if subs else h.line, ok, "blank rows are skipped before the row is indexed" if ok else "a blank line reaches `%s[...]` and fails with IndexError instead of being skipped" % rowvar)
+            if isinstance(n, ast.BinOp) and isinstance(n.op, (ast.Add, ast.Sub)) and isinstance(n.left, ast.Name) and n.left.id == ivar and isinstance(n.right, ast.Constant):
+                exprs.append((n, n.right.value if isinstance(n.op, ast.Add) else -n.right.value))
+            elif isinstance(n, ast.Name) and n.id == ivar and isinstance(n.ctx, ast.Load):
+                pass
+        want = consumed + 1 - start
+        en_arg = en.args[0] if en.args else None
+        filtered_src = None
+        if isinstance(en_arg, (ast.GeneratorExp, ast.ListComp)) and en_arg.generators[0].ifs:
+            filtered_src = en_arg
+        if isinstance(en_arg, ast.Name):
+            for n in own_nodes(fi.node):
+                if isinstance(n, ast.Assign) and any(isinstance(t, ast.Name) and t.id == en_arg.id for t in n.targets):
+                    if isinstance(n.value, (ast.GeneratorExp, ast.ListComp)) and n.value.generators[0].ifs:
+                        filtered_src = n.value
+                    elif isinstance(n.value, ast.Call) and isinstance(n.value.func, ast.Name) and n.value.func.id == "filter":
+                        filtered_src = n.value
+        bare = [n for n in own_nodes(fi.node) if isinstance(n, ast.Call) and isinstance(n.func, ast.Attribute) and n.func.attr == "format" and any(isinstance(a, ast.Name) and a.id == ivar for a in n.args)]
+        if bare:
+            exprs.append((bare[0], 0))
+        if filtered_src is not None and exprs:
+            ctx.violate("C17.c", con, d.module.rel, h.line, "rows are numbered after blank rows have been filtered out (`%s`): the reported line is too small by the number of blank lines before it" % K.src(filtered_src)[:60])
+        elif not exprs:
+            ctx.violate("C17.c", con, d.module.rel, h.line, "the invalid-value error no longer reports a line derived from the row index")
+        else:
+            node, k = exprs[0]
+            ctx.ob("C17.c", con, d.module.rel, node.lineno, k == want, "line = %s + %d (%d header row(s) consumed, enumerate starts at %d)" % (ivar, k, consumed, start) if k == want else
+                   "the reported line is %s %+d but the file line of row %s is %s %+d (%d header row consumed, enumerate starts at %d)" % (ivar, k, ivar, ivar, want, consumed, start))
+        subs = [n for n in cfg.find("sub") if isinstance(n.ast.value, ast.Name) and n.ast.value.id == rowvar]
+        guards = [t for t in cfg.find("test") if isinstance(t.ast, ast.Name) and t.ast.id == rowvar]
+        ok = bool(subs) and bool(guards) and all(any(cfg.dominates(g, s) and s not in cfg.reachable([m for m, l in g.succ if l == "false"], avoid={g, h}) for g in guards) for s in subs)
+        if filtered_src is not None and bool(subs):
+            ok = True  # blank rows are removed by the filtering iterable itself
+        ctx.ob("C17.c", "%s.execute::blank-rows" % d.key, d.module.rel, subs[0].line if subs else h.line, ok, "blank rows are skipped before the row is indexed" if ok else "a blank line reaches `%s[...]` and fails with IndexError instead of being skipped" % rowvar)
     # every numeric spelling is read: the cell text goes through float() (int('2.0') / int('1e3') are ValueErrors)
     parents = {}
     for n in ast.walk(fi.node):
